@@ -42,6 +42,12 @@ def _code_taint(f: Func) -> Set[str]:
                 c = attr_chain(v)
                 if c and c[0] == "self" and len(c) >= 2 and c[1] in ("_group_ikey", "group_ikey"):
                     src = True
+                if isinstance(v, (ast.ListComp, ast.GeneratorExp)) or (isinstance(v, ast.Call) and norm(v.func) in ("list", "tuple")):
+                    # a local container built from the grouping's code chunks holds codes
+                    for x in ast.walk(v):
+                        cx = attr_chain(x) if isinstance(x, ast.Attribute) else None
+                        if cx and cx[0] == "self" and len(cx) >= 2 and cx[1] in ("_group_ikey", "group_ikey"):
+                            src = True
                 if isinstance(v, ast.Name) and v.id in tainted:
                     src = True
                 if isinstance(v, ast.Subscript) and isinstance(v.slice, ast.Name) and v.slice.id in tainted:
@@ -60,8 +66,9 @@ def _code_taint(f: Func) -> Set[str]:
                     if isinstance(it, ast.Call) and norm(it.func) == "zip" and isinstance(g.target, ast.Tuple):
                         for a, t in zip(it.args, g.target.elts):
                             c = attr_chain(a)
-                            if c and c[0] == "self" and len(c) >= 2 and c[1] in ("_group_ikey", "group_ikey") \
-                                    and isinstance(t, ast.Name) and t.id not in tainted:
+                            is_codes = (c and c[0] == "self" and len(c) >= 2 and c[1] in ("_group_ikey", "group_ikey")) \
+                                or (isinstance(a, ast.Name) and a.id in tainted)
+                            if is_codes and isinstance(t, ast.Name) and t.id not in tainted:
                                 tainted.add(t.id)
                                 changed = True
     return tainted
@@ -128,9 +135,17 @@ def rule_K2(repo: Repo) -> RuleResult:
                 if saved and restored and _same_block(f, st, saved, tname):
                     res.ok(f, n, construct, f"idiom i: null positions saved in {saved!r} before and restored to -1 after")
                 else:
+                    guard = [g for g in _enclosing_tests(f, st) if "has_null" in norm(g)]
+                    later = any(isinstance(x, ast.If) and "has_null" in norm(x.test) and x.lineno > st.lineno
+                                for x in walk_no_nested(f.node))
+                    extra = ""
+                    if guard or later:
+                        extra = (" (the preservation is made conditional on a has-null flag; for chunked codes "
+                                 "GroupBy.has_null_keys reads the arrow null_count of sentinel-coded integers, which is "
+                                 "always 0, so the guard is not a sound null test)")
                     res.bad(f, n, construct,
                             f"codes {C!r} are re-mapped through a code->code table without preserving the null code: "
-                            f"-1 indexes the table from the end, so null-key rows receive the code of a real group")
+                            f"-1 indexes the table from the end, so null-key rows receive the code of a real group" + extra)
     # kernel scalar analogue: _weight_code_sum
     fz = repo.mod("groupby.factorization")
     w = fz.func("_weight_code_sum")
@@ -156,7 +171,39 @@ def rule_K2(repo: Repo) -> RuleResult:
 
 
 def _same_block(f: Func, st: ast.stmt, saved: str, tname: str) -> bool:
+    """the save and the restore are not under a condition the re-mapping itself is not under"""
+    mine = [norm(t) for t in _enclosing_tests(f, st)]
+    for s2 in walk_no_nested(f.node):
+        if isinstance(s2, ast.Assign) and len(s2.targets) == 1:
+            t2 = s2.targets[0]
+            if isinstance(t2, ast.Subscript) and isinstance(t2.slice, ast.Name) and t2.slice.id == saved:
+                theirs = [norm(t) for t in _enclosing_tests(f, s2)]
+                if any(t not in mine for t in theirs):
+                    return False
     return True
+
+
+def _enclosing_tests(f: Func, stmt: ast.AST) -> List[ast.AST]:
+    out: List[ast.AST] = []
+
+    def rec(n, tests):
+        if n is stmt:
+            out.extend(tests)
+            return True
+        for fld, val in ast.iter_fields(n):
+            if isinstance(val, list):
+                for c in val:
+                    if isinstance(c, ast.AST):
+                        t2 = tests + [n.test] if isinstance(n, ast.If) and fld in ("body", "orelse") else tests
+                        if rec(c, t2):
+                            return True
+            elif isinstance(val, ast.AST):
+                if rec(val, tests):
+                    return True
+        return False
+
+    rec(f.node, [])
+    return out
 
 
 def _stmt_containing(f: Func, node: ast.AST) -> Optional[ast.stmt]:
@@ -351,6 +398,42 @@ def rule_F1(repo: Repo) -> RuleResult:
     w.walk(mf.node.body, EMPTY)
     if w.n < 3:
         raise AnalysisError(f"F1: only {w.n} ordering comparisons / label stores found in _monotonic_factorization (floor 3)")
+    # the kernel's null test is a self-inequality (true for NaN/NaT only): the keys must reach it in their own dtype
+    selfneq = any(isinstance(n, ast.Compare) and len(n.ops) == 1 and isinstance(n.ops[0], ast.NotEq)
+                  and norm(n.left) == norm(n.comparators[0]) for n in walk_no_nested(mf.node))
+    wrap = fz.func("monotonic_factorization")
+    kcalls = [n for n in walk_no_nested(wrap.node) if isinstance(n, ast.Call) and norm(n.func) == "_monotonic_factorization"]
+    if not kcalls:
+        raise AnalysisError("F1: monotonic_factorization no longer calls the kernel")
+    feed: Set[str] = {x.id for x in ast.walk(kcalls[0].args[0]) if isinstance(x, ast.Name)} if kcalls[0].args else set()
+    changed = True
+    defs = [n for n in walk_no_nested(wrap.node) if isinstance(n, ast.Assign) and n.lineno < kcalls[0].lineno]
+    while changed:
+        changed = False
+        for d in defs:
+            tn = {x.id for t in d.targets for x in ast.walk(t) if isinstance(x, ast.Name)}
+            if tn & feed:
+                new = {x.id for x in ast.walk(d.value) if isinstance(x, ast.Name)} - feed
+                if new:
+                    feed |= new
+                    changed = True
+    int_views = []
+    for d in defs:
+        tn = {x.id for t in d.targets for x in ast.walk(t) if isinstance(x, ast.Name)}
+        if not (tn & feed):
+            continue
+        for c in ast.walk(d.value):
+            if isinstance(c, ast.Call) and isinstance(c.func, ast.Attribute) and c.func.attr in ("view", "astype") and c.args:
+                a = norm(c.args[0]).strip("'\"")
+                if a in ("int", "int64", "np.int64", "i8", "<i8", "np.int_"):
+                    int_views.append(d)
+    if selfneq and int_views:
+        res.bad(wrap, int_views[0], norm(int_views[0])[:80],
+                "the keys are viewed as integers before the monotonic scan, whose null test is a self-inequality (x != x): NaT "
+                "becomes an ordinary integer, so a leading null key is accepted as a label and gets a code")
+    else:
+        res.ok(wrap, kcalls[0], f"kernel input {norm(kcalls[0].args[0])}: "
+               + ("own dtype (self-inequality detects NaN/NaT)" if selfneq else "null test is not a self-inequality"), "")
     # routes of factorize_1d
     f1 = fz.func("factorize_1d")
     routes = 0
@@ -508,6 +591,8 @@ def rule_E2(repo: Repo) -> RuleResult:
             if not found:
                 res.bad(f, loop, f"{kname}: invalid-row path {p.describe()[:80]}", "invalid row leaves its output cell unassigned")
         if not carried:
+            if res.violations:
+                continue                   # already reported: the invalid-row output is not read from a carried cell
             raise AnalysisError(f"E2: carried-value array of {kname} not identified")
         A = sorted(carried)[0]
         # every non-null-key path assigns A[k] = out[i] after its output store
@@ -601,6 +686,117 @@ def rule_U1(repo: Repo) -> RuleResult:
             res.bad(f, st, f"{last_arr}[{key}] update", "U2: the group's previous-row pointer is not advanced to this row on an accepted row")
     if accepted < 1:
         raise AnalysisError("U1: no accepted-row path found in _cumulative_reduce")
+    _u1_initial_cell(repo, f, roles, res)
+    return res
+
+
+def _u1_initial_cell(repo: Repo, f: Func, roles, res: RuleResult):
+    """A group's first accepted row reads the accumulator cell selected by the INITIAL previous-row pointer.  With a
+    null-skipping reducer a leading null value returns that accumulator unchanged, so the cell must still hold its
+    initial value: only index -1 (the last cell, written by the very last row only) has that property, and the output
+    array must reach the kernel untouched."""
+    ptr = None
+    for n in walk_no_nested(f.node):
+        if isinstance(n, ast.Assign) and isinstance(n.value, ast.Subscript) and isinstance(n.targets[0], ast.Name) \
+                and base_name(n.value) in roles.per_group_arrays and n.targets[0].id not in roles.code_vars:
+            # last_seen = group_last_seen[key]
+            used_as_index = any(isinstance(s, ast.Subscript) and isinstance(s.slice, ast.Name) and s.slice.id == n.targets[0].id
+                                for s in walk_no_nested(f.node))
+            if used_as_index:
+                ptr = base_name(n.value)
+    if ptr is None:
+        raise AnalysisError("U1: previous-row pointer array of _cumulative_reduce not identified")
+    alloc = roles.local_arrays.get(ptr)
+    if alloc is None:
+        raise AnalysisError(f"U1: allocation of {ptr} not found")
+    fn = norm(alloc.func)
+    fill = alloc.args[1] if fn.endswith("full") and len(alloc.args) >= 2 else None
+    construct = f"{ptr} = {norm(alloc)}"
+    if fill is not None and const_int(fill) == -1:
+        res.ok(f, alloc, construct, "'no previous row' is -1: the first accepted row of a group reads the last cell, which "
+                                    "no earlier row has written")
+    else:
+        res.bad(f, alloc, construct,
+                "the initial previous-row pointer is not -1: the first accepted row of every group then reads a cell that an "
+                "earlier row of ANOTHER group may already have written (e.g. cell 0); a null-skipping reducer returns that "
+                "accumulator unchanged for a leading null value, so values of other groups enter")
+    # the caller hands the freshly built output array to the kernel untouched
+    ac = repo.func("groupby.numba", "_apply_cumulative")
+    tdef = None
+    kcall = None
+    for n in walk_no_nested(ac.node):
+        if isinstance(n, ast.Assign) and isinstance(n.value, ast.Call) and norm(n.value.func).endswith("_build_target_for_groupby") \
+                and isinstance(n.targets[0], ast.Name):
+            tdef = n
+        if isinstance(n, ast.Call) and any(k.arg == "target" for k in n.keywords) and any(k.arg == "reduce_func" for k in n.keywords):
+            kcall = n
+    if tdef is None or kcall is None:
+        raise AnalysisError("U1: output allocation / kernel call not found in _apply_cumulative")
+    tname = tdef.targets[0].id
+    bound = next(k.value for k in kcall.keywords if k.arg == "target")
+    touched = [n for n in walk_no_nested(ac.node) if isinstance(n, (ast.Assign, ast.AugAssign))
+               and tdef.lineno < n.lineno < kcall.lineno
+               and any(isinstance(x, ast.Subscript) and base_name(x) == tname and isinstance(x.ctx, ast.Store)
+                       for t in (n.targets if isinstance(n, ast.Assign) else [n.target]) for x in ast.walk(t))]
+    construct = f"_apply_cumulative: target={norm(bound)} (built by {norm(tdef.value.func)})"
+    if norm(bound) != tname:
+        res.bad(ac, kcall, construct, "the kernel's output array is not the freshly built one")
+    elif touched:
+        res.bad(ac, touched[0], construct + f"; {norm(touched[0])[:50]}",
+                "the output array is written before the scan: the cell a group's first row reads back (the last cell) may no "
+                "longer hold the neutral initial value (e.g. a null-key marker in the last row seeds every group)")
+    else:
+        res.ok(ac, kcall, construct, "reaches the kernel with every cell at its initial value")
+
+
+def rule_E3(repo: Repo) -> RuleResult:
+    res = RuleResult("E3", "time-weighted EMA: whenever the state is decayed by the elapsed time the group's clock is advanced")
+    f = repo.func("emas", "_ema_grouped_timed")
+    roles = infer_roles(f)
+    k = next(iter(roles.code_vars))
+    loop = [n for n in walk_no_nested(f.node) if isinstance(n, ast.For)][-1]
+    # the clock array: per-group array read inside a difference with times[...]
+    clock = None
+    for n in ast.walk(loop):
+        if isinstance(n, ast.BinOp) and isinstance(n.op, ast.Sub):
+            for side in (n.left, n.right):
+                if isinstance(side, ast.Subscript) and base_name(side) in roles.per_group_arrays:
+                    other = n.right if side is n.left else n.left
+                    if "times" in norm(other):
+                        clock = base_name(side)
+    if clock is None:
+        raise AnalysisError("E3: elapsed-time expression (times[i] - clock[k]) not found in _ema_grouped_timed")
+    n_paths = 0
+    for p in enumerate_paths(loop.body):
+        if p.exit != "fall":
+            continue
+        n_paths += 1
+        # names derived from the clock on this path
+        derived: Set[str] = set()
+        decays = []
+        advanced = False
+        for st in p.stmts:
+            if isinstance(st, ast.Assign) and len(st.targets) == 1 and isinstance(st.targets[0], ast.Name):
+                names = {x.id for x in ast.walk(st.value) if isinstance(x, ast.Name)}
+                if clock in {base_name(x) for x in ast.walk(st.value) if isinstance(x, ast.Subscript)} or names & derived:
+                    derived.add(st.targets[0].id)
+            if isinstance(st, ast.AugAssign) and isinstance(st.op, ast.Mult) and isinstance(st.target, ast.Subscript) \
+                    and base_name(st.target) in roles.per_group_arrays \
+                    and {x.id for x in ast.walk(st.value) if isinstance(x, ast.Name)} & derived:
+                decays.append(st)
+            if isinstance(st, ast.Assign) and isinstance(st.targets[0], ast.Subscript) and base_name(st.targets[0]) == clock \
+                    and "times" in norm(st.value):
+                advanced = True
+        construct = f"path {p.describe()[:90]}: {len(decays)} decay(s), clock {'advanced' if advanced else 'NOT advanced'}"
+        if decays and not advanced:
+            res.bad(f, decays[0], construct,
+                    f"the group's state is decayed by the time elapsed since {clock}[{k}] but {clock}[{k}] is not moved to this "
+                    f"row's time on this path: the same interval is applied again at the group's next row (weights decay "
+                    f"twice over invalid rows)", path=p.describe())
+        else:
+            res.ok(f, loop, construct, "")
+    if n_paths < 4:
+        raise AnalysisError(f"E3: only {n_paths} paths through the timed EMA loop (floor 4)")
     return res
 
 
